@@ -188,6 +188,14 @@ type exh struct {
 	assumeNil []ssa.Value // values assumed nil while a phi edge is evaluated
 	memo      map[evalKey]*AV
 	reachMemo map[reachKey]map[*ssa.BasicBlock]bool
+	callMemo  map[callKey]*AV
+}
+
+type callKey struct {
+	c   *ssa.Call
+	idx int
+	ctx *Ctx
+	at  *ssa.BasicBlock
 }
 
 type evalKey struct {
@@ -209,6 +217,7 @@ func (p *Prog) exhEngine() (*exh, error) {
 	e.fixpoint()
 	e.reachMemo = map[reachKey]map[*ssa.BasicBlock]bool{}
 	e.memo = map[evalKey]*AV{}
+	e.callMemo = map[callKey]*AV{}
 	p.exhEng = e
 	return e, nil
 }
@@ -842,6 +851,19 @@ func typeMatches(x, t types.Type) bool {
 
 // callResult evaluates result #idx of a call.
 func (e *exh) callResult(c *ssa.Call, idx int, ctx *Ctx, at *ssa.BasicBlock, depth int, rt types.Type) *AV {
+	if e.callMemo != nil && len(e.assumeNil) == 0 {
+		k := callKey{c, idx, ctx, at}
+		if r, ok := e.callMemo[k]; ok {
+			return r.clone()
+		}
+		r := e.callResult1(c, idx, ctx, at, depth, rt)
+		e.callMemo[k] = r
+		return r.clone()
+	}
+	return e.callResult1(c, idx, ctx, at, depth, rt)
+}
+
+func (e *exh) callResult1(c *ssa.Call, idx int, ctx *Ctx, at *ssa.BasicBlock, depth int, rt types.Type) *AV {
 	kind := e.kindOf(rt)
 	callee := c.Call.StaticCallee()
 	// ast getters and friends
@@ -1326,8 +1348,7 @@ func (e *exh) edgeOK(p *ssa.BasicBlock, si int, ctx *Ctx) bool {
 		if k == "other" || k == "funcs" {
 			continue
 		}
-		av := e.eval(subj, ctx, p, 0)
-		av = e.refineAt(av, subj, p, ctx)
+		av := e.evalAt(subj, ctx, p)
 		av = e.refine(av, subj, []Fact{f}, ctx, p)
 		if av.empty() {
 			return false
